@@ -186,31 +186,49 @@ func openIndex(eng string, g grid, ds *docSet) (bleve.Index, error) {
 	if n, _ := idx.DocCount(); int(n) != len(ds.ids) {
 		return nil, fmt.Errorf("%s holds %d of %d documents", eng, n, len(ds.ids))
 	}
-	// the stored fields must hold exactly the intended points (guards the input forms used above)
+	return idx, nil
+}
+
+type storedMismatch struct{ what string }
+
+func (e *storedMismatch) Error() string { return e.what }
+
+// checkStored compares the points decoded from the stored fields with the
+// points handed to bleve. A different NUMBER of points means the harness used
+// an input form bleve does not read as a point (plain error: inconclusive);
+// a point that comes back more than 1e-6 degrees away is a failed round trip
+// of the encoding (*storedMismatch: property-level).
+func checkStored(idx bleve.Index, eng string, g grid, ds *docSet) error {
 	for _, id := range ds.ids {
 		doc, err := idx.Document(id)
 		if err != nil || doc == nil {
-			return nil, fmt.Errorf("%s: document %s not retrievable: %v", eng, id, err)
+			return fmt.Errorf("%s: document %s not retrievable: %v", eng, id, err)
 		}
-		var got []string
+		var got [][2]float64
 		doc.VisitFields(func(f index.Field) {
 			if gp, ok := f.(index.GeoPointField); ok && f.Name() == "loc" {
 				lon, _ := gp.Lon()
 				lat, _ := gp.Lat()
-				got = append(got, fmt.Sprintf("%.4f,%.4f", lon, lat))
+				got = append(got, [2]float64{lon, lat})
 			}
 		})
-		var want []string
-		for _, p := range ds.pts[id] {
-			want = append(want, fmt.Sprintf("%.4f,%.4f", g.lonPoint(p), g.latPoint(p)))
+		if len(got) != len(ds.pts[id]) {
+			return fmt.Errorf("%s: document %s holds %d points, %d were handed in", eng, id, len(got), len(ds.pts[id]))
 		}
-		sort.Strings(got)
-		sort.Strings(want)
-		if strings.Join(got, " ") != strings.Join(want, " ") {
-			return nil, fmt.Errorf("%s: document %s holds points %v, intended %v", eng, id, got, want)
+		for _, p := range ds.pts[id] {
+			lon, lat := g.lonPoint(p), g.latPoint(p)
+			found := false
+			for _, q := range got {
+				if math.Abs(q[0]-lon) <= 1e-6 && math.Abs(q[1]-lat) <= 1e-6 {
+					found = true
+				}
+			}
+			if !found {
+				return &storedMismatch{fmt.Sprintf("%s: document %s was given the point (%.7f,%.7f) but its stored field decodes to %v", eng, id, lon, lat, got)}
+			}
 		}
 	}
-	return idx, nil
+	return nil
 }
 
 // ---- queries enumerated by TLC
@@ -409,6 +427,13 @@ func run(c *core.Ctx) error {
 		}
 		defer ix.Close()
 		idx[eng] = ix
+		if err := checkStored(ix, eng, g, ds); err != nil {
+			if sm, ok := err.(*storedMismatch); ok {
+				c.Violation("c18/roundtrip/stored-point", sm.what, map[string]any{"kind": "stored", "nb": g.nb, "seed": g.seed, "eng": eng})
+			} else {
+				return err
+			}
+		}
 	}
 	if err := s2Active(c, idx["scorch-s2"], idx["scorch"]); err != nil {
 		return err
